@@ -66,7 +66,7 @@ class CircuitWorld(World):
     NAME = "circuit"
     LEVEL = "exploration"
     SIM_TIME_UNIT = "operations (public calls and generator advances)"
-    RUNS = {"quick": 4000, "thorough": 80000}
+    RUNS = {"quick": 10000, "thorough": 400000}
     WALL_CAP = {"quick": 1200, "thorough": 3300}
     SHRINK_BUDGET = 60
     RULE = (
@@ -159,7 +159,7 @@ class CircuitWorld(World):
     TABLES = {
         "gates": dict(gate=12, query=4, sampler=1, gen_next=2, copy=1, set_params=2, new=1, reject=1, apply_gates=1),
         "queries": dict(gate=5, query=10, sampler=1, gen_next=2, copy=1, set_params=2.5, new=0.5, reject=0.5, apply_gates=0.5),
-        "samplers": dict(gate=5, query=3, sampler=4, gen_next=6, copy=1, set_params=1.5, new=0.5, reject=0.5, apply_gates=0.5),
+        "samplers": dict(gate=5, query=3, sampler=4, gen_next=6, copy=3, set_params=1.5, new=0.5, reject=0.5, apply_gates=0.5),
         "mixed": dict(gate=8, query=6, sampler=2, gen_next=3, copy=1.5, set_params=2.5, new=1, reject=1, apply_gates=1),
     }
     for _t in TABLES.values():
